@@ -127,7 +127,7 @@ def render(table, coords, header, has_mult, sgn):
     return "\n".join(lines) + "\n", cols
 
 
-def run_table(table, nsteps, variant):
+def run_table(table, nsteps, variant, decoy_first=False):
     from ladim.release import ParticleReleaser
     from ladim.state import State
     from ladim.timekeeper import TimeKeeper
@@ -160,8 +160,18 @@ def run_table(table, nsteps, variant):
         kw.update(release_frequency=DT)
     elif mode != "discrete":
         kw.update(continuous=True, release_frequency=DT * (1 if mode == "cont1" else 2))
+    # the release file is a real file, and it is the SAME path for every table of this process (a driver that rewrites its release
+    # file for each experiment): whatever was parsed for the previous table must not be served again
+    path = util.scratch_root() / "c04_release.rls"
+    if decoy_first:  # replay of a single table: give it a predecessor under the same path
+        path.write_text("release_time X Y Z\n" + world.iso(S0) + " 1.0 1.0 1.0\n" if header else world.iso(S0) + " 1.0 1.0 1.0\n")
+        try:
+            ParticleReleaser(dict(time=tk, state=State(), grid=grid), str(path), names=None if header else ["release_time", "X", "Y", "Z"])
+        except BaseException:
+            pass
+    path.write_text(text)
     try:
-        rel = ParticleReleaser(dict(time=tk, state=st, grid=grid), StringIO(text), **kw)
+        rel = ParticleReleaser(dict(time=tk, state=st, grid=grid), str(path), **kw)
     except SystemExit:
         if total == 0:
             return None, "refused-empty"  # nothing to release: refusing is C20's business
@@ -281,7 +291,7 @@ def run_case(case):
     if case["mode"] == "tables":
         return run_tables(case)
     if case["mode"] == "one":
-        res, outc = run_table(case["table"], case["nsteps"], case["variant"])
+        res, outc = run_table(case["table"], case["nsteps"], case["variant"], decoy_first=True)
         v = []
         if res is not None:
             rev = case["variant"][4]
